@@ -505,17 +505,28 @@ def trap_rule(run, f, rid_msg, rid_install):
             udu = DefUse(ub)
             uib = find_calls(ub, callee_is(CO + "::stack_ptr_in_bounds"))
             direct = False
+            n_ex = n_und = 0
             if len(uib) == 1:
                 from analysis.table import PathWalker as _PW, outcome_on_path as _oop
                 for (pth, _c, sv) in _PW(ub).walk(0, lambda bid, t: ("return",) if t["k"] == "return" else None):
                     val = _oop(ub, udu, pth, uib[0][0])
                     if val is None:
+                        if uib[0][0] in pth:
+                            n_und += 1
                         continue
+                    n_ex += 1
                     for x in pth:
                         for s_ in ub.blocks[x]["stmts"]:
                             if s_["k"] == "assign" and s_["rhs"]["k"] == "use" and s_["rhs"]["a"]["k"] == "const" and isinstance(s_["rhs"]["a"].get("dbg"), str) and ("invalid memory reference" in s_["rhs"]["a"]["dbg"] or "stack overflow" in s_["rhs"]["a"]["dbg"]):
                                 msgs["other" if val else "0"] = s_["rhs"]["a"]["dbg"]
                                 direct = True
+            # accounting applies to the direct form only: when the handler itself never branches on the answer (the message
+            # is chosen in the closure on the captured flag) the structural closure check below judges it, and that check
+            # has no path it could skip
+            if len(uib) == 1 and direct:
+                run.paths(rid_msg, CO + "::trap_handler/message", b.loc(), n_ex, 0, n_und)
+                if n_und:
+                    why.append("on %d path(s) through stack_ptr_in_bounds its answer could not be read off the path: the message chosen there was not judged" % n_und)
             for c in ([] if direct else cl):
                 d2 = DefUse(c)
                 for blk in c.blocks:
